@@ -58,6 +58,7 @@ class Scheduler:
         self.aborted = False
         self._tids: dict[int, Actor] = {}
         self.on_step = None            # callback(sched) after every step (consistent snapshot monitors)
+        self._grace = 0
         self.progress_epoch = 0        # number of steps that ended without blocking (real progress)
 
     # ---- called from harness / actor threads
@@ -140,8 +141,16 @@ class Scheduler:
                     break
                 elig = self._eligible()
                 if not elig:
+                    # every live actor is blocked.  A lock may be held by an *uncontrolled* thread (e.g. a history
+                    # writer started during scenario setup): give real time a chance a few times before the verdict.
+                    if self._grace < 5:
+                        self._grace += 1
+                        _real_time.sleep(0.05)
+                        self.progress_epoch += 1
+                        continue
                     self.deadlock = True
                     break
+                self._grace = 0
                 if self.step >= self.max_steps:
                     self.stuck = f"max_steps {self.max_steps} reached"
                     break
@@ -369,7 +378,9 @@ def explore(scenario, strategy="pct", max_preemptions=2, n=100, seed=0, sql=Fals
         while stack:
             if agg["schedules"] >= max_schedules or over_budget():
                 break
-            prefix = stack.pop()
+            # alternate between the deepest and the shallowest pending prefix so that a time-limited search
+            # covers preemptions early in the scenario as well as late ones
+            prefix = stack.pop() if agg["schedules"] % 2 else stack.pop(0)
             res = run_one(scenario, DfsPrefix(prefix), sql=sql, lines=lines, max_steps=max_steps, shims=shims,
                           on_step=on_step_factory() if on_step_factory else None)
             record(res)
